@@ -398,17 +398,130 @@ func (a *effAnalysis) findDeadLoads() {
 			work = append(work, v)
 		}
 	}
+	// an edge into a merge is feasible when its source is reached and, if it ends in a branch whose condition is
+	// constant under the bindings, the branch goes that way
+	feasible := func(pred, to *ssa.BasicBlock) bool {
+		if a.reach != nil && !a.reach[pred] {
+			return false
+		}
+		if iff, ok := pred.Instrs[len(pred.Instrs)-1].(*ssa.If); ok && pred.Succs[0] != pred.Succs[1] && len(a.bind) > 0 {
+			if cv := evalConstWith(iff.Cond, a.fn, a.bind, 0); cv != nil && cv.Kind() == constant.Bool {
+				want := pred.Succs[1]
+				if constant.BoolVal(cv) {
+					want = pred.Succs[0]
+				}
+				return want == to
+			}
+		}
+		return true
+	}
+	// local tables: an array this activation allocates, filled element by element at constant positions and read only
+	// through element addresses (of the array or of the whole of it sliced); an element's filling is needed only
+	// when a needed read can be of that element
+	type tableInfo struct {
+		fills map[int64][]*ssa.Store
+		all   bool // some read's position is not constant under the bindings: every element is needed
+		wanted map[int64]bool
+	}
+	tables := map[*ssa.Alloc]*tableInfo{}
+	tableOf := func(v ssa.Value) *ssa.Alloc {
+		if sl, ok := v.(*ssa.Slice); ok && sl.Low == nil && sl.High == nil && sl.Max == nil {
+			v = sl.X
+		}
+		al, _ := v.(*ssa.Alloc)
+		if al != nil && tables[al] != nil {
+			return al
+		}
+		return nil
+	}
 	for _, b := range a.fn.Blocks {
+		for _, ins := range b.Instrs {
+			al, ok := ins.(*ssa.Alloc)
+			if !ok || al.Referrers() == nil {
+				continue
+			}
+			if _, isArr := al.Type().Underlying().(*types.Pointer).Elem().Underlying().(*types.Array); !isArr {
+				continue
+			}
+			info := &tableInfo{fills: map[int64][]*ssa.Store{}, wanted: map[int64]bool{}}
+			okTable := true
+			var check func(v ssa.Value, whole bool)
+			check = func(v ssa.Value, whole bool) {
+				refs := v.Referrers()
+				if refs == nil {
+					return
+				}
+				for _, ref := range *refs {
+					switch x := ref.(type) {
+					case *ssa.IndexAddr:
+						if x.X != v {
+							okTable = false
+							continue
+						}
+						for _, r2 := range *x.Referrers() {
+							switch y := r2.(type) {
+							case *ssa.Store:
+								k, isK := constInt(x.Index)
+								if y.Addr != ssa.Value(x) || !isK || !whole {
+									okTable = false
+								} else {
+									info.fills[k] = append(info.fills[k], y)
+								}
+							case *ssa.UnOp:
+								if y.Op != token.MUL {
+									okTable = false
+								}
+							case *ssa.DebugRef:
+							default:
+								okTable = false
+							}
+						}
+					case *ssa.Slice:
+						if x.X != v || x.Low != nil || x.High != nil || x.Max != nil {
+							okTable = false
+							continue
+						}
+						check(x, false)
+					case *ssa.DebugRef:
+					default:
+						okTable = false
+					}
+				}
+			}
+			check(al, true)
+			if okTable && len(info.fills) > 0 {
+				tables[al] = info
+			}
+		}
+	}
+	isFill := func(st *ssa.Store) bool {
+		ia, ok := st.Addr.(*ssa.IndexAddr)
+		if !ok {
+			return false
+		}
+		al, _ := ia.X.(*ssa.Alloc)
+		return al != nil && tables[al] != nil
+	}
+	for _, b := range a.fn.Blocks {
+		if a.reach != nil && !a.reach[b] {
+			continue
+		}
 		for _, ins := range b.Instrs {
 			switch x := ins.(type) {
 			case *ssa.Return:
 				for i, r := range x.Results {
-					if i >= len(a.liveRes) || a.liveRes[i] {
+					if a.liveRes == nil || i >= len(a.liveRes) || a.liveRes[i] {
 						need(r)
 					}
 				}
 			case *ssa.Phi, *ssa.BinOp, *ssa.UnOp, *ssa.Convert, *ssa.ChangeType, *ssa.FieldAddr, *ssa.IndexAddr, *ssa.Index, *ssa.Field, *ssa.Extract, *ssa.Slice, *ssa.MakeInterface, *ssa.Lookup, *ssa.Alloc, *ssa.DebugRef:
 				// pure values: needed only when something needed uses them
+			case *ssa.Store:
+				if isFill(x) {
+					break // the filling of a local table: needed only when the element can be read
+				}
+				need(x.Addr)
+				need(x.Val)
 			case *ssa.Call:
 				if a.pureCall(x) {
 					break // a call that only computes a value: needed only when the value is
@@ -433,12 +546,55 @@ func (a *effAnalysis) findDeadLoads() {
 			}
 		}
 	}
+	wantElem := func(al *ssa.Alloc, k int64, all bool) {
+		info := tables[al]
+		if all {
+			if !info.all {
+				info.all = true
+				for _, sts := range info.fills {
+					for _, st := range sts {
+						need(st.Val)
+					}
+				}
+			}
+			return
+		}
+		if !info.wanted[k] {
+			info.wanted[k] = true
+			for _, st := range info.fills[k] {
+				need(st.Val)
+			}
+		}
+	}
 	for len(work) > 0 {
 		v := work[len(work)-1]
 		work = work[:len(work)-1]
 		ins, ok := v.(ssa.Instruction)
 		if !ok {
 			continue
+		}
+		if phi, isPhi := v.(*ssa.Phi); isPhi {
+			for i, e := range phi.Edges {
+				if i < len(phi.Block().Preds) && feasible(phi.Block().Preds[i], phi.Block()) {
+					need(e)
+				}
+			}
+			continue
+		}
+		// a read of an element of a local table
+		if ld, isLd := v.(*ssa.UnOp); isLd && ld.Op == token.MUL {
+			if ia, isIA := ld.X.(*ssa.IndexAddr); isIA {
+				if al := tableOf(ia.X); al != nil {
+					need(ia.Index)
+					if cv := evalConstWith(ia.Index, a.fn, a.bind, 0); cv != nil && cv.Kind() == constant.Int {
+						k, _ := constant.Int64Val(cv)
+						wantElem(al, k, false)
+					} else {
+						wantElem(al, 0, true)
+					}
+					continue
+				}
+			}
 		}
 		var ops []*ssa.Value
 		for _, op := range ins.Operands(ops) {
@@ -474,7 +630,7 @@ func (a *effAnalysis) pureCall(call *ssa.Call) bool {
 func (a *effAnalysis) run() {
 	fn := a.fn
 	a.reach = reachableBlocks(fn, a.bind)
-	if a.liveRes != nil {
+	if a.liveRes != nil || len(a.bind) > 0 {
 		a.findDeadLoads()
 	}
 	for _, b := range fn.Blocks {
